@@ -1332,6 +1332,10 @@ func (e *EvalEnv) call(x *ast.CallExpr) (Val, error) {
 			return TV{T: And(Not(Eq(App(SRef, "if-typ", iv.T), BVInt(0, 32))), e.X.C.Implements(App(SRef, "if-typ", iv.T), et)), Typ: types.Typ[types.Bool]}, nil
 		}
 		return e.X.unboxIface(e.state(), iv.T, bt)
+	case "dyncalls":
+		// dyncalls(): ghost counter of calls made through function values (needs `opt countcalls` and `opt purecalls`)
+		h := e.X.heapGet(e.state(), dynCallsRegion, SArr(SRef, SIdx))
+		return TV{T: Select(h, BVInt(0, 32)), Typ: types.Typ[types.Int]}, nil
 	case "allocated":
 		// allocated(s): the slice/pointer/map refers to an object that already exists in the current state
 		// (so a later allocation cannot alias it)
